@@ -254,6 +254,14 @@ def state_checks(out, layout):
                     warnings.simplefilter("ignore")
                     S = states.make(name)
                     d0 = sdig(S, intern)
+                    # the evolution every reproduction must follow: the same state built again and stepped (never saved or copied)
+                    R = states.make(name)
+                    R.rand_seed = S.rand_seed           # (seeded from the clock at creation: the only legitimately different member)
+                    if P.particles_digest(R) != P.particles_digest(S):
+                        R = reproduce(S, "copy", layout, tmp)      # the state draws random numbers while it is built (MEGNO): fall back to a copy
+                    for _ in range(4):
+                        R.step()
+                    ref_evol = (P.particles_digest(R), R.t)
                     for route in ("copy", "pickle", "file", "archive"):
                         Cc = reproduce(S, route, layout, tmp)
                         ev["eq_" + route] = not bool(cdiff(S, Cc))
@@ -261,12 +269,9 @@ def state_checks(out, layout):
                         ev["same_" + route] = sdig(Cc, intern) == d0
                         ev["src_untouched_" + route] = sdig(S, intern) == d0
                         # identical evolution
-                        S2 = reproduce(S, "copy", layout, tmp)
-                        k = 3
-                        for _ in range(k):
-                            S2.step()
+                        for _ in range(4):
                             Cc.step()
-                        ev["evolve_" + route] = (P.particles_digest(S2) == P.particles_digest(Cc)) and S2.t == Cc.t
+                        ev["evolve_" + route] = (P.particles_digest(Cc), Cc.t) == ref_evol
                         ev["src_untouched_after_steps_" + route] = sdig(S, intern) == d0
             except Exception as e:   # noqa
                 ev["error"] = "%s: %s" % (type(e).__name__, str(e)[:100])
